@@ -27,7 +27,7 @@ IsCase(c) == /\ c.path \in {"vc", "peer"} /\ c.kind \in KindsOn(c.path) /\ IsBas
 IsBatchCase(b) == /\ b.path \in {"vc", "peer"} /\ b.kind \in BatchKindsOn(b.path) /\ IsBase(b)
                   /\ b.alt = "batch" /\ b.pat \in PatternsOf(b.path, b.kind)
 TReset == IsEvent("Reset") /\ l = 1 /\ Ev.N = N /\ Ev.V = V /\ UNCHANGED vars
-TSubmit == /\ IsEvent("Submit") /\ IsCase(Ev.c) /\ (calls = <<>> \/ SameSig(calls[1], Ev.c))
+TSubmit == /\ IsEvent("Submit") /\ IsCase(Ev.c) /\ (IF calls = <<>> THEN TRUE ELSE SameSig(calls[1], Ev.c))
            /\ Submit(Ev.c)
 TSubmitBatch == IsEvent("SubmitBatch") /\ IsBatchCase(Ev.c) /\ SubmitBatch(Ev.c)
 TDeliver == /\ IsEvent("Deliver") /\ Ev.k \in 1..3 /\ Deliver(Ev.k)
